@@ -271,7 +271,7 @@ func c03Scenarios() []e3Scenario {
 	f := strings.Fields
 	return []e3Scenario{
 		{"sync+ckpt", base, f("W3 SW W1 SW LC:PASSIVE W1 SW LC:TRUNCATE W1 SW")},
-		{"compact+retain", base, f("W3 SW W1 SW W1 SW CMP:1 W1 SW SNAP RETL0:3 CMP:1 CMP:2 W1 SW SNAP RET9:1 SW")},
+		{"compact+retain", base, f("W3 SW W1 SW W1 SW CMP:1 W1 SW SNAP RETL0A:3 CMP:1 CMP:2 W1 SW SNAP RET9A:1 SW")},
 		{"restore+close", base, f("W3 SW W1 S W1 SW RESTORE:restored CL")},
 		{"auto-ckpt", min3, f("W3 SW W3 SW W1 SW W3 SW")},
 		{"chunked", chunk, f("W3 W1 W1 SW W1 W1 SW")},
@@ -291,7 +291,15 @@ func c03(args []string) int {
 	deadline := time.Now().Add(budget)
 	scs := c03Scenarios()
 	if !thorough {
-		scs = scs[:3]
+		// quick tier: three shorter histories that between them still contain every mutating code path
+		// (first/incremental sync, PASSIVE and TRUNCATE checkpoint, upload, compaction, snapshot, retention, restore, close)
+		f := strings.Fields
+		base := scn.DefaultConfig()
+		scs = []e3Scenario{
+			{"sync+ckpt", base, f("W3 SW W1 SW LC:PASSIVE W1 SW LC:TRUNCATE SW")},
+			{"compact+retain", base, f("W3 SW W1 SW CMP:1 W1 SW SNAP RETL0A:2 CMP:1 SNAP RET9A:1")},
+			{"restore+close", base, f("W3 SW W1 SW RESTORE:restored CL")},
+		}
 	}
 	variants := []string{"idle", "app-continues"}
 	if _, err := os.Stat(killatPath()); err != nil {
